@@ -4,6 +4,7 @@ from __future__ import annotations
 import ast
 import os
 import re
+import time
 
 import z3
 
@@ -442,6 +443,106 @@ def nowiki_token_language(rep: C.Report) -> None:
         ob.detail += f"{type(e).__name__}: {e}"
 
 
+def nowiki_parser_side(rep: C.Report) -> None:
+    """Ob11: on the parse side the body of a nowiki element must reach the tree as ONE text token.  Fact (AST): the branch of
+    magic_fn for kind 'N' consists of simple statements that call nothing but nowiki_quote and text_fn, text_fn exactly
+    once.  If the branch does anything else (e.g. feeds the quoted body to the tokenizer), z3 decides for every alternative
+    of the tokenizer's token pattern whether it can match inside a quoted body at all: Q = (unquoted character | entity)*
+    is the image of nowiki_quote (read from its table), the query is  x in Q and x = u.t.v and t in L(alternative)  (for a
+    `^` alternative: u empty or ending in a newline), once for any x and once for a multi-line x; no length bound.  The
+    bodies so found (decoded) and a small fixed list are replayed: parse() must give a single text node that decodes to
+    the body, and inside a list item / template argument / link / table cell the tree must be the one a plain-word body
+    gives."""
+    import z3
+
+    from vf import resym as R
+
+    ob = rep.add(C.Ob("Ob11 parse side: the quoted nowiki body reaches the tree as one text token (no tokenizer alternative is applied to it)", "AST fact; else E2 z3 regex (quoted-body language x token alternatives, unbounded) + replay", ["parser.py:magic_fn (kind N)", "parser.py:token_list", "common.py:_nowiki_map"], "every statement of the N branch; every alternative of the token pattern against every quoted body, no length bound"))
+    try:
+        tree = ast.parse(open(os.path.join(C.SRC, "parser.py")).read())
+        fns = [f for q, f in AP.functions(tree) if q[-1] == "magic_fn"]
+        if len(fns) != 1:
+            ob.verdict, ob.detail = C.NOT_ENCODABLE, f"magic_fn found {len(fns)} times"
+            return
+        branches = [n for n in ast.walk(fns[0]) if isinstance(n, ast.If) and isinstance(n.test, ast.Compare) and isinstance(n.test.left, ast.Name) and n.test.left.id == "kind" and len(n.test.ops) == 1 and isinstance(n.test.ops[0], ast.Eq) and isinstance(n.test.comparators[0], ast.Constant) and n.test.comparators[0].value == "N"]
+        if len(branches) != 1:
+            ob.verdict, ob.detail = C.NOT_ENCODABLE, f"{len(branches)} branches for kind == 'N' in magic_fn"
+            return
+        body = branches[0].body
+        calls = [c.func.id if isinstance(c.func, ast.Name) else ast.unparse(c.func) for st in body for c in ast.walk(st) if isinstance(c, ast.Call)]
+        simple = all(isinstance(st, (ast.Assign, ast.AnnAssign, ast.Expr)) for st in body)
+        fact = simple and set(calls) <= {"nowiki_quote", "text_fn"} and calls.count("text_fn") == 1
+        ob.conditions = ob.queries = ob.paths = 1
+        ob.samples.append({"N_branch_calls": calls, "simple_statements_only": simple})
+        if fact and not C.distrust():
+            ob.verdict = C.DISCHARGED
+            ob.confirmed_conditions = 1
+            return
+        # z3: which token alternatives can match inside a quoted body?
+        import wikitextprocessor.parser as P
+        from wikitextprocessor.common import _nowiki_map
+
+        gen0, _ = xh.prepare(H)
+        mod = xh.load(gen0)
+        unq = R._neg(R._union(z3.Re(k) for k in _nowiki_map))  # one character that is not quoted (and not the \b marker)
+        Q = z3.Star(R._union([unq] + [z3.Re(v) for v in _nowiki_map.values()]))
+        x, u, t, v = z3.String("x"), z3.String("u"), z3.String("t"), z3.String("v")
+        bodies, undecided = [], []
+        t0 = time.time()
+        for alt in P.token_list:
+            caret = alt.startswith("^")
+            try:
+                lang = R.to_z3(alt.replace(r"\b", ""))  # without \b the alternative matches more: sound for 'cannot match'
+            except Exception as e:  # noqa: BLE001 - e.g. the placeholder range lies outside z3's character range
+                undecided.append((alt[:30], f"{type(e).__name__}: {e}"))
+                continue
+            for multi in (False, True):
+                sol = z3.Solver()
+                sol.set("timeout", 20000)
+                sol.add(z3.InRe(x, Q), x == z3.Concat(u, t, v), z3.InRe(t, lang), z3.Length(t) > 0)
+                if caret:
+                    sol.add(z3.Or(u == z3.StringVal(""), z3.SuffixOf(z3.StringVal("\n"), u)))
+                if multi:
+                    sol.add(z3.PrefixOf(z3.StringVal("a\n"), u), z3.SuffixOf(z3.StringVal("\nb"), v))
+                r = str(sol.check())
+                ob.queries += 1
+                if r == "sat":
+                    bodies.append((alt[:30], mod.decode(R.z3str_to_py(sol.model().eval(x, model_completion=True).as_string()))))
+                elif r != "unsat":
+                    undecided.append((alt[:30], r))
+        ob.solver_s += time.time() - t0
+        fixed = ["a\n \nb", "a\n\t\nb", "a\n----\nb", "a\n;x\nb", "a\n b", "a\n\n\nb"]
+        ob.samples.append({"token_alternatives_that_can_match_in_a_quoted_body": bodies[:12], "undecided": undecided[:6]})
+        from wikitextprocessor import Wtp
+        from wikitextprocessor.parser import WikiNode
+
+        def kinds(n):
+            return (n.kind.name, [kinds(c) for c in n.children if isinstance(c, WikiNode)], [[kinds(c) for c in a if isinstance(c, WikiNode)] for a in n.largs])
+
+        for _alt, c in bodies + [("fixed list", b) for b in fixed]:
+            if "</nowiki" in c.lower() or c.strip() == "":
+                continue
+            sig, bad, what = mod._api_nowiki(c)
+            if bad:
+                vv = rep.violation(sig, "nowiki body is not one inert text node: " + what, {"body": c})
+                ob.verdict = C.VIOLATED if vv.known is None else C.KNOWN
+                return
+            for pre, post in (("* i ", "\n* j\n"), ("{{t|", "}}"), ("[[a|", "]]"), ("{|\n| ", "\n| d\n|}")):
+                w = Wtp(quiet=True, quiet_output=True)
+                w.start_page("T")
+                got = kinds(w.parse(pre + "<nowiki>" + c + "</nowiki>" + post))
+                w.start_page("T")
+                want = kinds(w.parse(pre + "<nowiki>word</nowiki>" + post))
+                if got != want:
+                    doc = pre + "<nowiki>" + c + "</nowiki>" + post
+                    vv = rep.violation("parse(" + repr(doc) + ")", f"the nowiki body changes the structure around it: node kinds {got}, with a plain word as body {want}", {"doc": doc})
+                    ob.verdict = C.VIOLATED if vv.known is None else C.KNOWN
+                    return
+        ob.detail = f"the N branch of magic_fn calls {calls}; {len(bodies)} quoted bodies in which a token alternative can match and {len(fixed)} fixed ones still parse to one inert text node -> inconclusive"
+    except Exception as e:  # noqa: BLE001
+        ob.detail += f"{type(e).__name__}: {e}"
+
+
 def finalize_fixpoint(rep: C.Report) -> None:
     """Ob7: _finalize_expand substitutes placeholders inside a loop that only ends when a pass changes nothing (unexpanded
     constructs put their arguments back verbatim, so each nesting level needs one more pass).  AST/E3 fact: the substitution call
@@ -505,6 +606,7 @@ def run(rep: C.Report) -> None:
     finalize_fixpoint(rep)
     comment_token_language(rep)
     nowiki_token_language(rep)
+    nowiki_parser_side(rep)
 
 
 def replay(r: dict) -> int:
